@@ -334,6 +334,9 @@ class Run:
                             yield F[i](v=tag)
                     return faulty()
                 states = [F[i](v=tag) for i, tag in ys]
+                if states and did % 3 == 0:
+                    # a one-shot iterable (generator / iterator / map object): it can be traversed exactly once
+                    return iter(states) if did % 2 else (s_ for s_ in states)
                 return states if len(states) != 1 else states[0]
 
             async def __aexit__(s, et, ev, tb):
